@@ -61,6 +61,7 @@ def work(tier, seed):
             items.append({"kind": "sampling", "blocks": [list(x) for x in bl]})
     for k in range(b["history_objects"]):
         items.append({"kind": "history", "which": k})
+    items.append({"kind": "large"})
     return items
 
 
@@ -102,6 +103,7 @@ def check_object(ctx, case, g, data, cfg, groups_expected, T):
     if [str(x) for x in g.groups] != [str(x) for x in groups_expected]:
         ctx.fail("group-names", case, observed=list(map(str, g.groups)), expected=list(map(str, groups_expected)))
         return
+    T = list(T[1:]) + list(T[:1])  # the caller's thresholds are not sorted (one long cycle away from sorted)
     Tarr = np.array(T)
     ok, gcm = guarded(ctx, "group_cm", case, lambda: g.group_cm(Tarr).matrix)
     ok2, cm = guarded(ctx, "cm", case, lambda: g.cm(Tarr).matrix)
@@ -166,6 +168,8 @@ def run(item, ctx, tier, seed):
 
     if item["kind"] == "history":
         return _run_history(item, ctx)
+    if item["kind"] == "large":
+        return _run_large(item, ctx, seed)
     if item["kind"] == "sampling":
         return _run_sampling(item, ctx, seed)
     blocks = [tuple(x) for x in item["blocks"]]
@@ -229,6 +233,16 @@ def run(item, ctx, tier, seed):
                                  expected=[k_.tolist() for k_ in keep])
                         break
             ctx.outcome((tuple(assign), cfg, g.cm(np.array(T)).matrix.tobytes()))
+            # unsigned-integer scores, unsorted (labels must still travel with their scores)
+            if variant == 0 and ai % 2 == 0:
+                u_data = [(float(int(s_ * 2)), p_, l_) for s_, p_, l_ in data]
+                ok, gu = guarded(ctx, "construct-uint8", case, lambda: GroupScores(
+                    pos=np.array([int(s_ * 2) for s_, _ in pos_in], dtype=np.uint8), neg=np.array([int(s_ * 2) for s_, _ in neg_in], dtype=np.uint8),
+                    pos_groups=[l for _, l in pos_in], neg_groups=[l for _, l in neg_in], score_class=sc, equal_class=ec))
+                ctx.tick()
+                if ok:
+                    check_object(ctx, dict(case, dtype="uint8"), gu, u_data, cfg, glist,
+                                 ot.threshold_alphabet(sorted(set(v for v, _, _ in u_data))))
             # from_labels
             if variant == 0:
                 ok, g2 = guarded(ctx, "from_labels", case, lambda: GroupScores.from_labels(
@@ -437,4 +451,54 @@ def _run_history(item, ctx):
     if res["states"] > expect:
         ctx.fail("reachable-states-are-cache-subsets", case, observed=res["states"], expected=f"<= {expect}")
     ctx.sample({"kind": "history", "object": case["object"], "events": [n for n, _ in events], "result": res})
+    return None
+
+
+def _run_large(item, ctx, seed):
+    """Groups with >= 100 scores per class (the size at which 'dynamic' may switch method), real RNG, three seeds."""
+    from score_analysis import BootstrapConfig, GroupScores
+
+    rng_ = np.random.default_rng(12345)
+    for sizes in ({"a": (100, 100), "bb": (120, 101)}, {"a": (100, 100), "bb": (99, 130)}, {"a": (150, 160)}):
+        pos, neg, pg, ng = [], [], [], []
+        for gname, (npz, nng) in sizes.items():
+            pos += list(np.round(rng_.normal(1.0, 1.0, npz), 3))
+            neg += list(np.round(rng_.normal(0.0, 1.0, nng), 3))
+            pg += [gname] * npz
+            ng += [gname] * nng
+        src = GroupScores(pos=pos, neg=neg, pos_groups=pg, neg_groups=ng)
+        src_pairs = (set(zip(map(float, pos), pg)), set(zip(map(float, neg), ng)))
+        T = np.array([-1.0, 0.0, 0.5, 1.0, 2.0])
+        for method, strat in (("dynamic", "by_group"), ("dynamic", None), ("dynamic", "by_label"), ("replacement", "by_group")):
+            for sd in (seed, seed + 1, seed + 2):
+                case = {"kind": "large", "group_sizes": {k: list(v) for k, v in sizes.items()}, "method": method, "stratified": strat,
+                        "np_random_seed": sd}
+                st = np.random.get_state()
+                np.random.seed(sd)
+                try:
+                    ok, smp = guarded(ctx, "bootstrap_sample", case, lambda: src.bootstrap_sample(
+                        BootstrapConfig(sampling_method=method, stratified_sampling=strat)))
+                finally:
+                    np.random.set_state(st)
+                ctx.state()
+                ctx.tick()
+                ctx.nontrivial()
+                if not ok:
+                    continue
+                pp = set(zip(map(float, smp.pos), map(str, smp.pos_groups)))
+                nn = set(zip(map(float, smp.neg), map(str, smp.neg_groups)))
+                if not (pp <= src_pairs[0] and nn <= src_pairs[1]):
+                    ctx.fail("sampled-pairs-are-source-pairs", case, observed="foreign (score, label) pair", expected="subset of the source")
+                if np.any(np.diff(np.asarray(smp.pos, dtype=float)) < 0) or np.any(np.diff(np.asarray(smp.neg, dtype=float)) < 0):
+                    ctx.fail("sample-internally-ordered", case, observed="unsorted", expected="ascending")
+                if list(map(str, smp.groups)) != list(map(str, src.groups)):
+                    ctx.fail("group-names-preserved-in-order", case, observed=list(map(str, smp.groups)), expected=list(map(str, src.groups)))
+                if strat == "by_group":
+                    for gname, (npz, nng) in sizes.items():
+                        got = int(np.sum(np.asarray(smp.pos_groups) == gname) + np.sum(np.asarray(smp.neg_groups) == gname))
+                        if got != npz + nng:
+                            ctx.fail("by-group-preserves-group-counts", dict(case, group=gname), observed=got, expected=npz + nng)
+                if not np.array_equal(smp.group_cm(T).matrix.sum(axis=0), smp.cm(T).matrix):
+                    ctx.fail("sample-group-cms-sum-to-cm", case, observed=smp.group_cm(T).matrix.sum(axis=0), expected=smp.cm(T).matrix)
+    ctx.sample({"kind": "large", "sizes": "groups of 99..160 scores per class", "seeds": [seed, seed + 1, seed + 2]})
     return None
